@@ -178,6 +178,7 @@ func runC15(rc *RC) {
 		rc.Fail("HARNESS/fixture", "%v", err)
 		return
 	}
+	g.mixedAreas = true // only for features added from here on
 	if !check(w, "building the world") {
 		return
 	}
